@@ -287,7 +287,7 @@ def gauss_cases(ctx, n_cases):
         g.mean = np.array([complex(float(a), float(b)) for a, b in mean], dtype=complex)
         ops, names = [], []
         for _ in range(rng.randint(1, 6)):
-            kinds = ["squeeze", "phase", "displace", "loss", "thermalLoss", "initThermal", "fromCov", "applyU"] + \
+            kinds = ["squeeze", "phase", "displace", "loss", "thermalLoss", "initThermal", "fromCov", "applyU", "bkprep"] + \
                 (["bs", "bs"] if n >= 2 else [])
             kind = rng.choice(kinds)
             k = rng.randrange(n)
@@ -305,8 +305,12 @@ def gauss_cases(ctx, n_cases):
                 l = rng.choice([m for m in range(n) if m != k])
                 c, s = circle_point(rng)
                 ct, sn = circle_point(rng)
-                ops.append(dict(op="bs", c=fr(c), s=fr(s), ct=fr(ct), sn=fr(sn), k=k, l=l))
-                g.beamsplitter(math.atan2(sn, ct), math.atan2(s, c), k, l)
+                if rng.random() < 0.5:      # through the back-end API (sign convention of backend.py)
+                    ops.append(dict(op="bkbs", c=fr(c), s=fr(s), ct=fr(ct), sn=fr(sn), k=k, l=l))
+                    be.beamsplitter(math.atan2(sn, ct), math.atan2(s, c), k, l)
+                else:
+                    ops.append(dict(op="bs", c=fr(c), s=fr(s), ct=fr(ct), sn=fr(sn), k=k, l=l))
+                    g.beamsplitter(math.atan2(sn, ct), math.atan2(s, c), k, l)
             elif kind == "displace":
                 c, s = circle_point(rng)
                 rr = Fraction(rng.randint(0, 6), 4)
@@ -321,6 +325,22 @@ def gauss_cases(ctx, n_cases):
                 nbar = rng.choice([Fraction(0), Fraction(1, 2), Fraction(2)])
                 ops.append(dict(op="thermalLoss", q=fr(q), add=fr((1 - q * q) * nbar), k=k))
                 g.thermal_loss(float(q * q), float(nbar), k)
+            elif kind == "bkprep":       # back-end preparations: reset + gate(s)
+                c, s = circle_point(rng)
+                ch, sh, r = hyper_point(rng)
+                c2, s2 = circle_point(rng)
+                rr = Fraction(rng.randint(0, 6), 4)
+                which = rng.choice(["bkcoh", "bksq", "bkdsq"])
+                if which == "bkcoh":
+                    ops.append(dict(op="bkcoh", re=fr(rr * c2), im=fr(rr * s2), k=k))
+                    be.prepare_coherent_state(float(rr), math.atan2(s2, c2), k)
+                elif which == "bksq":
+                    ops.append(dict(op="bksq", c=fr(c), s=fr(s), ch=fr(ch), sh=fr(sh), k=k))
+                    be.prepare_squeezed_state(r, math.atan2(s, c), k)
+                else:
+                    ops.append(dict(op="bkdsq", re=fr(rr * c2), im=fr(rr * s2), c=fr(c), s=fr(s), ch=fr(ch), sh=fr(sh), k=k))
+                    be.prepare_displaced_squeezed_state(float(rr), math.atan2(s2, c2), r, math.atan2(s, c), k)
+                spec_ok = False
             elif kind == "fromCov":      # GaussianBackend.prepare_gaussian_state(r, V, modes): mode list in any order
                 kk = rng.randint(1, min(3, n))
                 modes = rng.sample(range(n), kk)
